@@ -48,7 +48,8 @@ theorem lookupAssoc_mem {α : Type} {n : String} {c : α} : ∀ {l : List (Strin
 theorem SRel.ofWF {Q : QRel} {cx : Cx} (hq : QRefl Q) {σ : State N} (h : State.WF σ) (hI : cx.I N (idRel σ) σ σ)
     (hG : ∀ p ∈ cx.G N, σ.getGlobal p.1 = p.2 := by intro _ h; cases h)
     (hF : ∀ p ∈ cx.F, FnGlobal σ p.1 p.2 := by intro _ h; cases h)
-    (hcl : ∀ c ∈ σ.closures, NoRefF (watD cx) c.body ∧ ∀ n ∈ cx.W, lookupAssoc n c.env = none := by
+    (hcl : ∀ c ∈ σ.closures, NoRefF (watD cx) c.body ∧ ∀ n ∈ cx.W,
+        lookupAssoc n c.env = lookupAssoc n cx.bindL ∧ lookupAssoc n c.env = lookupAssoc n cx.bindR := by
       intro _ h; cases h) :
     SRel Q cx (idRel σ) σ σ where
   globals := forall2_self _ fun p hp => ⟨rfl, VRel.ofInRange (h.globals p hp)⟩
@@ -81,8 +82,7 @@ theorem SRel.ofWF {Q : QRel} {cx : Cx} (hq : QRefl Q) {σ : State N} (h : State.
     · intro n hn
       obtain ⟨m, hmW, e⟩ := List.mem_map.mp hn
       cases e
-      rw [(hcl _ hm).2 n hmW]
-      exact ⟨(cx.subW n hmW).1.symm, (cx.subW n hmW).2.symm⟩
+      exact (hcl _ hm).2 n hmW
   strlib := ⟨rfl, h.strlib⟩
   ginv := fun p hp => ⟨hG p hp, hG p hp⟩
   finv := fun p hp => ⟨hF p hp, hF p hp⟩
